@@ -146,20 +146,36 @@ def suite_glue(ctx):
         mapping = MAPS[(t*5 + ctx_seed(ctx)) % 6]
         noise = ['scalar', 'array', 'std', 'relative-only'][t % 4]
         shape = [(8, 8, 8), (16, 8, 8), (8, 8, 8), (8, 8, 16)][t % 4]
+        edge = t % 3 == 0
         w = World(emg3d, rng, case, mapping, shape=shape,
-                  relative=bool(t % 2), noise=noise)
+                  relative=bool(t % 2), noise=noise, edge_rec=edge)
         sim = w.sim()
         with warnings.catch_warnings():
             warnings.simplefilter('ignore')
             m0 = float(sim.misfit)
             g = np.array(sim.gradient, copy=True)
+        tag = (case, mapping, noise, shape, bool(t % 2), edge)
+        # the adjoint sources are finite whatever the solver then does with
+        # them (data without a finite residual are skipped, as in the misfit)
+        nonfin = [(sk, fk) for sk in w.survey.sources
+                  for fk in w.survey.frequencies
+                  if not np.all(np.isfinite(sim._get_rfield(sk, fk).field))]
+        if nonfin or not np.isfinite(m0):
+            bad.append(('adjoint source not finite', tag, nonfin))
+            ctx.violation(
+                'adjoint-source-not-finite',
+                f'world {tag}: the adjoint source of {nonfin} contains '
+                f'non-finite values (misfit {m0!r}); data with a non-finite '
+                f'residual do not enter the misfit', {'tag': repr(tag)})
+            continue
         if not converged(sim):
             skipped += 1
             continue
-        tag = (case, mapping, noise, shape, bool(t % 2))
         obs = sim.data.observed.data
         syn = sim.data.synthetic.data
-        fin = np.isfinite(obs)
+        # data without a finite residual (missing observation, or a receiver
+        # in the outermost cell: NaN response) do not enter the misfit
+        fin = np.isfinite(obs) & np.isfinite(syn)
         # --- weights, residual, misfit
         sd = w.survey.standard_deviation.data
         if noise == 'std':
@@ -205,7 +221,7 @@ def suite_glue(ctx):
                 # -s mu0: a factor -s mu0 / conj(-s mu0) (= -1 for s = i w)
                 fac = (-rf.smu0)/np.conj(-rf.smu0)
                 rhs = fac*np.sum(np.conj(r[f1]*wgt[f1])*resp[f1])
-                if abs(lhs-rhs) > 1e-9*max(abs(rhs), 1e-300):
+                if not abs(lhs-rhs) <= 1e-9*max(abs(rhs), 1e-300):
                     bad.append(('rfield', tag, sk, fk, lhs, rhs))
                     ctx.violation(
                         'adjoint-source-not-transpose',
@@ -232,7 +248,7 @@ def suite_glue(ctx):
         exp = np.array(col)*chain_factor(w)
         gg = g.reshape(exp.shape)
         sc = np.max(np.abs(exp))
-        if gg.shape != exp.shape or np.max(np.abs(gg-exp)) > 1e-10*sc:
+        if gg.shape != exp.shape or not np.max(np.abs(gg-exp)) <= 1e-10*sc:
             bad.append(('pipeline', tag, float(np.max(np.abs(gg-exp))/sc)))
             ctx.violation(
                 'gradient-pipeline-differs',
@@ -279,7 +295,8 @@ def suite_fd(ctx):
         case = list(CASES)[(t + 1 + ctx_seed(ctx)) % 4]
         mapping = MAPS[(t*5 + 2 + ctx_seed(ctx)) % 6]
         w = World(emg3d, rng, case, mapping, shape=(8, 8, 8),
-                  relative=bool(t % 2), noise=['scalar', 'array'][t % 2])
+                  relative=bool(t % 2), noise=['scalar', 'array'][t % 2],
+                  edge_rec=(t % 3 == 1))
         sim = w.sim()
         with warnings.catch_warnings():
             warnings.simplefilter('ignore')
@@ -317,7 +334,7 @@ def suite_fd(ctx):
             orders.append(round(float(order), 2))
             # second order (unless already at the solver-tolerance floor)
             floor = 1e-7*abs(gv)
-            if rel > 1e-3 or (errs[1] > floor and order < 1.6):
+            if not rel <= 1e-3 or (errs[1] > floor and not order >= 1.6):
                 bad.append((tag, d, gv, errs, order))
                 ctx.violation(
                     'gradient-not-derivative',
